@@ -18,8 +18,11 @@ import (
 //	Verify|Decrypt(ext2)                                  (answered exactly like msg.consume)
 //
 // Specification (history freedom): the answer is that of `msg.consume <kind> <mode> <ext2> <msg2>` on fresh objects.
-func reuseT[T any](c payloadCodec[T], a *msgArgs, ext1, data1 []byte, same bool) string {
+func reuseT[T any](c payloadCodec[T], a *msgArgs, ext1, data1 []byte, same bool, firstKey key.Key) string {
 	ks := keysOf(a.fields)
+	// msg.otherkey: the first use is made under `firstKey`, through the same recording wrapper; swap installs its
+	// implementation and returns the undo (nil when the kind has no single key or the key gives no implementation)
+	var swap func(k key.Key) func()
 	type msgI interface {
 		UnmarshalCBOR([]byte) error
 		MarshalCBOR() ([]byte, error)
@@ -36,6 +39,14 @@ func reuseT[T any](c payloadCodec[T], a *msgArgs, ext1, data1 []byte, same bool)
 		rv := &recVerifier{Verifier: v, log: &log}
 		mm := &cose.Sign1Message[T]{}
 		m = mm
+		swap = func(k key.Key) func() {
+			v1, e := k.Verifier()
+			if e != nil {
+				return nil
+			}
+			rv.Verifier = v1
+			return func() { rv.Verifier = v }
+		}
 		step = func(ext []byte) (string, error) {
 			log = nil
 			if err := mm.Verify(rv, ext); err != nil {
@@ -70,6 +81,14 @@ func reuseT[T any](c payloadCodec[T], a *msgArgs, ext1, data1 []byte, same bool)
 		rm := &recMacer{MACer: mc}
 		mm := &cose.Mac0Message[T]{}
 		m = mm
+		swap = func(k key.Key) func() {
+			m1, e := k.MACer()
+			if e != nil {
+				return nil
+			}
+			rm.MACer = m1
+			return func() { rm.MACer = mc }
+		}
 		step = func(ext []byte) (string, error) {
 			rm.seen = nil
 			if err := mm.Verify(rm, ext); err != nil {
@@ -85,6 +104,14 @@ func reuseT[T any](c payloadCodec[T], a *msgArgs, ext1, data1 []byte, same bool)
 		rm := &recMacer{MACer: mc}
 		mm := &cose.MacMessage[T]{}
 		m = mm
+		swap = func(k key.Key) func() {
+			m1, e := k.MACer()
+			if e != nil {
+				return nil
+			}
+			rm.MACer = m1
+			return func() { rm.MACer = mc }
+		}
 		step = func(ext []byte) (string, error) {
 			rm.seen = nil
 			if err := mm.Verify(rm, ext); err != nil {
@@ -100,6 +127,14 @@ func reuseT[T any](c payloadCodec[T], a *msgArgs, ext1, data1 []byte, same bool)
 		re := &recEncryptor{Encryptor: en}
 		mm := &cose.Encrypt0Message[T]{}
 		m = mm
+		swap = func(k key.Key) func() {
+			e1, e := k.Encryptor()
+			if e != nil {
+				return nil
+			}
+			re.Encryptor = e1
+			return func() { re.Encryptor = en }
+		}
 		step = func(ext []byte) (string, error) {
 			re.aads, re.nonces = nil, nil
 			if err := mm.Decrypt(re, ext); err != nil {
@@ -115,6 +150,14 @@ func reuseT[T any](c payloadCodec[T], a *msgArgs, ext1, data1 []byte, same bool)
 		re := &recEncryptor{Encryptor: en}
 		mm := &cose.EncryptMessage[T]{}
 		m = mm
+		swap = func(k key.Key) func() {
+			e1, e := k.Encryptor()
+			if e != nil {
+				return nil
+			}
+			re.Encryptor = e1
+			return func() { re.Encryptor = en }
+		}
 		step = func(ext []byte) (string, error) {
 			re.aads, re.nonces = nil, nil
 			if err := mm.Decrypt(re, ext); err != nil {
@@ -126,7 +169,14 @@ func reuseT[T any](c payloadCodec[T], a *msgArgs, ext1, data1 []byte, same bool)
 		return "bad-op"
 	}
 	if err := m.UnmarshalCBOR(data1); err == nil {
+		var undo func()
+		if firstKey != nil && swap != nil {
+			undo = swap(firstKey)
+		}
 		step(ext1)
+		if undo != nil {
+			undo()
+		}
 	} else if same {
 		return errClass(err)
 	}
@@ -235,6 +285,31 @@ func execNonceHistory(a []string) string {
 	return "ok distinct"
 }
 
+// msg.otherkey <kind> <mode> <ext> <msg> | <first key> | <key>…
+//
+// One decoded message object: Verify|Decrypt under <first key> (result ignored), then under <key>: answered exactly like
+// `msg.consume <kind> <mode> <ext> <msg> | <key>…` on fresh objects — no check made for one key is remembered for another.
+func execOtherKey(a []string) string {
+	f := splitAll(a)
+	h := f[0]
+	if len(f) < 3 || len(h) < 4 {
+		return "bad-op"
+	}
+	args := &msgArgs{kind: h[0], mode: h[1], ext: unhxOpt(h[2]), data: unhx(h[3]), fields: f[2:]}
+	fk := keyFromToks(f[1])
+	switch args.mode {
+	case "raw":
+		return reuseT(rawCodec, args, args.ext, args.data, true, fk)
+	case "rawmsg":
+		return reuseT(rawMsgCodec, args, args.ext, args.data, true, fk)
+	case "typed", "gomap":
+		return reuseT(typedCodec, args, args.ext, args.data, true, fk)
+	case "named":
+		return reuseT(namedCodec, args, args.ext, args.data, true, fk)
+	}
+	return "bad-op"
+}
+
 func execReuse(a []string) string {
 	f := splitAll(a)
 	h := f[0]
@@ -248,13 +323,13 @@ func execReuse(a []string) string {
 	}
 	switch args.mode {
 	case "raw":
-		return reuseT(rawCodec, args, unhxOpt(h[2]), data1, same)
+		return reuseT(rawCodec, args, unhxOpt(h[2]), data1, same, nil)
 	case "rawmsg":
-		return reuseT(rawMsgCodec, args, unhxOpt(h[2]), data1, same)
+		return reuseT(rawMsgCodec, args, unhxOpt(h[2]), data1, same, nil)
 	case "typed", "gomap":
-		return reuseT(typedCodec, args, unhxOpt(h[2]), data1, same)
+		return reuseT(typedCodec, args, unhxOpt(h[2]), data1, same, nil)
 	case "named":
-		return reuseT(namedCodec, args, unhxOpt(h[2]), data1, same)
+		return reuseT(namedCodec, args, unhxOpt(h[2]), data1, same, nil)
 	}
 	return "bad-op"
 }
